@@ -245,6 +245,8 @@ func vScenarioC19(rc *runCtx) {
 		}
 	}
 	var lastServerOut time.Duration
+	var cancelText []byte
+	cancelEarlyMs := 1000
 	serverDone := false
 	w.Go("server", nil, func() {
 		if emptySelection {
@@ -274,11 +276,16 @@ func vScenarioC19(rc *runCtx) {
 			case 2:
 				ms = 150 + tp.Draw("c19.juststarted", 70)
 			}
+			cancelEarlyMs = ms
 			verifsim.Sleep(time.Duration(ms) * time.Millisecond)
 			cancelAt = w.Now()
 			if tp.Bool("c19.cannotopen", 300) {
 				textOnly = true
 				down.Write([]byte("rz: cannot open /dev/tty\r\n"))
+			} else if tp.Bool("c19.canceltext", 300) {
+				// the cancel bytes share their read with what the remote side prints as it gives up
+				cancelText = []byte("\r\nrz: skipped, receive cancelled by the remote side (c19)\r\n$ ")
+				down.Write(append(append([]byte{}, vZCancel...), cancelText...))
 			} else {
 				down.Write(vZCancel)
 			}
@@ -446,6 +453,12 @@ func vScenarioC19(rc *runCtx) {
 	// it is shown (a second Enter now and then is harmless and not judged)
 	probing = true
 	rc.res.Scenario["enters_typed_by_client"] = enters
+	// what the remote side printed in the same read as its cancel bytes, before any helper existed, is shown
+	// (only when the remote side was the first to end the session: it cancelled within the 100 ms the client waits)
+	if cancelText != nil && ctrlC == 0 && cancelEarlyMs < 95 && !bytes.Contains(termAll, bytes.TrimSpace(cancelText)) {
+		rc.violate("handback", "C19:text-beside-cancel-swallowed", "the remote side cancelled before a helper ran and printed %q in the same read as its cancel bytes: that text never reached the terminal (case %s): terminal tail %s", cancelText, rc.res.ClassKey, vQuote(vTail(termAll, vMax0(len(termAll)-120)), 130))
+		return
+	}
 	for i, p := range shellPrompts {
 		if !bytes.Contains(termAll, bytes.TrimLeft(p, "\r\n")) {
 			rc.violate("handback", "C19:prompt-after-enter-swallowed", "the remote shell answered the client's Enter at once with prompt %d, which never reached the terminal (case %s): terminal tail %s", i+1, rc.res.ClassKey, vQuote(vTail(termAll, vMax0(len(termAll)-100)), 110))
